@@ -337,6 +337,51 @@ fn run_generated(c: &GenCase) -> Outcome {
         }
         Err(e) => o.push("C13:sign-error", e.to_string()),
     }
+    // the other signing entry points that choose the issuer subpackets themselves
+    {
+        use pgp::composed::{CleartextSignedMessage, MessageBuilder};
+        let mut produced: Vec<(&str, Vec<u8>)> = Vec::new();
+        if let Ok(ds) = DetachedSignature::sign_text_data(crate::engine::rng(1), &cert.primary_key, &Password::empty(), HashAlgorithm::Sha512, &b"x\n"[..]) {
+            produced.push(("detached-text", ds.signature.to_bytes().expect("sig")));
+        }
+        if let Ok(m) = CleartextSignedMessage::sign(crate::engine::rng(1), "text\n- dash", &cert.primary_key, &Password::empty()) {
+            for s in m.signatures() {
+                produced.push(("cleartext", s.to_bytes().expect("sig")));
+            }
+        }
+        let mut b = MessageBuilder::from_bytes("", b"payload".to_vec());
+        b.sign(&cert.primary_key, Password::empty(), HashAlgorithm::Sha512);
+        if let Ok(bytes) = b.to_vec(crate::engine::rng(3)) {
+            if let Ok(ps) = codec::split_packets(&bytes) {
+                for p in ps.iter().filter(|p| p.0 == 2) {
+                    produced.push(("message-builder", p.2.clone()));
+                }
+            }
+        }
+        if produced.len() < 3 {
+            o.push("C13:sign-error", format!("only {} of 3 signing entry points produced a signature", produced.len()));
+        }
+        let want_ver = if c.kind.is_v6() { 6 } else { 4 };
+        for (name, body) in produced {
+            let (kids, fps, _) = issuer_subpackets(&body);
+            if fps.is_empty() && kids.is_empty() {
+                o.push(format!("C13:{name}:signature-without-issuer"), String::new());
+            }
+            for f in &fps {
+                if f.first() != Some(&want_ver) || f[1..] != pfp[..] {
+                    o.push(format!("C13:{name}:issuer-fingerprint-differs"), hex::encode(f));
+                }
+            }
+            for k in &kids {
+                if k != &pkid {
+                    o.push(format!("C13:{name}:issuer-key-id-differs"), format!("subpacket {} / key id {}", hex::encode(k), hex::encode(&pkid)));
+                }
+            }
+            if c.kind.is_v6() && !kids.is_empty() {
+                o.push(format!("C13:{name}:v6-signature-carries-issuer-key-id"), String::new());
+            }
+        }
+    }
     // PKESK recipient fields
     let enc_sub = &cert.secret_subkeys[0].key;
     let sfp = enc_sub.fingerprint().as_bytes().to_vec();
@@ -610,7 +655,7 @@ pub fn check(ctx: &Ctx) {
     ctx.run_space(
         "generated_keys",
         true,
-        "generated certificates of 10 key kinds x seeds (12 / 3000, RSA 1 / 8; P-521 and legacy EdDSA yield leading-zero MPIs regularly): primary and subkey fingerprints / key ids = reference value; all wrappers agree; issuer subpackets of self-signatures and bindings name the primary, those of the embedded back signature name the subkey; a data signature embeds the signer's fingerprint (with the right version octet) and key id (v4 only) and match_identity selects exactly the signer; PKESK v3 key id / v6 fingerprint name the encryption subkey and match_identity selects exactly it",
+        "generated certificates of 10 key kinds x seeds (12 / 3000, RSA 1 / 8; P-521 and legacy EdDSA yield leading-zero MPIs regularly): primary and subkey fingerprints / key ids = reference value; all wrappers agree; issuer subpackets of self-signatures and bindings name the primary, those of the embedded back signature name the subkey; a data signature made through each signing entry point that chooses issuer subpackets itself (detached binary / text, cleartext framework, MessageBuilder::sign) embeds the signer's fingerprint (with the right version octet) and key id (v4 only) and match_identity selects exactly the signer; PKESK v3 key id / v6 fingerprint name the encryption subkey and match_identity selects exactly it",
         gc.into_par_iter(),
         run_generated,
     );
